@@ -7,6 +7,22 @@ use proptest::prelude::*;
 
 pub struct C17;
 
+/// A linear model plus, per row, whether its relation is the strict one (`<` for `<=`, `>` for
+/// `>=`): the LP format has no strict relations, the export has to keep the direction.
+#[derive(Clone, Debug, serde::Serialize, serde::Deserialize)]
+pub struct Case17 {
+    #[serde(flatten)]
+    lin: LinCase,
+    #[serde(default)]
+    strict: u8,
+}
+
+impl Case17 {
+    fn is_strict(&self, i: usize) -> bool {
+        i < 8 && self.strict >> i & 1 == 1 && self.lin.rows[i].rel != R::Eq
+    }
+}
+
 const PARAMS: LinParams = LinParams {
     max_vars: 5,
     max_rows: 6,
@@ -25,8 +41,13 @@ fn decorate(mut c: LinCase, bits: u64) -> LinCase {
     if !c.rows.is_empty() && c.n() > 0 {
         let r = pick(0, c.rows.len() as u64);
         let j = pick(4, c.n() as u64);
-        c.rows[r].coef[j] = match pick(8, 9) {
+        c.rows[r].coef[j] = match pick(8, 13) {
             0 => 1e-9,
+            // below every "float noise" tolerance, down to the smallest positive f64
+            9 => 5e-10,
+            10 => -2.5e-12,
+            11 => 1e-300,
+            12 => -5e-324,
             1 => -2.5e-7,
             2 => 1e9,
             3 => -3e8,
@@ -52,7 +73,7 @@ fn decorate(mut c: LinCase, bits: u64) -> LinCase {
     }
     if c.n() > 0 && bits >> 40 & 1 == 1 {
         let j = pick(41, c.n() as u64);
-        c.obj[j] = [1e-9, -1e9, -0.0, 0.5, 1e19, -1e25][pick(44, 6)];
+        c.obj[j] = [1e-9, -1e9, -0.0, 0.5, 1e19, -1e25, -2.5e-12, 3e-200][pick(44, 8)];
     }
     if bits >> 46 & 1 == 1 {
         c.offset = [-0.0, -2.5, 1e9, 1e-9, -1e19, 1e30][pick(47, 6)];
@@ -68,12 +89,14 @@ fn decorate(mut c: LinCase, bits: u64) -> LinCase {
 }
 
 impl Prop for C17 {
-    type Case = LinCase;
+    type Case = Case17;
     fn id(&self) -> &'static str {
         "C17"
     }
-    fn strategy(&self, _tier: Tier) -> BoxedStrategy<LinCase> {
-        (lin_case(PARAMS), any::<u64>()).prop_map(|(c, b)| decorate(c, b)).boxed()
+    fn strategy(&self, _tier: Tier) -> BoxedStrategy<Case17> {
+        (lin_case(PARAMS), any::<u64>(), prop_oneof![2 => Just(0u8), 1 => any::<u8>()])
+            .prop_map(|(c, b, strict)| Case17 { lin: decorate(c, b), strict })
+            .boxed()
     }
     fn budget(&self, tier: Tier) -> usize {
         match tier {
@@ -81,16 +104,22 @@ impl Prop for C17 {
             Tier::Thorough => 500_000,
         }
     }
-    fn canon(&self, c: &LinCase) -> String {
-        serde_json::to_string(&c.pretty()).unwrap()
+    fn canon(&self, c: &Case17) -> String {
+        format!("{} strict={}", serde_json::to_string(&c.lin.pretty()).unwrap(), (0..c.lin.rows.len()).filter(|i| c.is_strict(*i)).count())
     }
     fn rule(&self) -> String {
-        "linear models through the public API: 0-5 variables of every domain kind (free, half-bounded, bounded, fixed, negative bounds, Boolean, integer range), 0-6 rows with integer / quarter / 1e-9 / 1e9 / 1e19 .. 1e30 (beyond the 64-bit integers) / negative-zero coefficients and right-hand sides, zero rows, named and unnamed rows where user names equal the names the exporter generates (c1, c2, ...), offsets of both signs and magnitudes, min / max / satisfy. to_lp_format() is read by an independent CPLEX-LP reader and compared with the model: sense (satisfy -> minimise), objective coefficients and constant, every row in order (user name, coefficients, relation, right-hand side; numbers must read back as the identical f64), all row names pairwise distinct, effective bounds after the format's defaults equal to the domain, Binary / General marks equal to Boolean / IntegerRange. Non-trivial = a variable with non-default bounds, a row led by a negative coefficient, and an offset or an unnamed row. Distinct = distinct model text.".into()
+        "linear models through the public API: 0-5 variables of every domain kind (free, half-bounded, bounded, fixed, negative bounds, Boolean, integer range), 0-6 rows with integer / quarter / 1e-9 / 5e-10 .. 5e-324 / 1e9 / 1e19 .. 1e30 (beyond the 64-bit integers) / negative-zero coefficients and right-hand sides, zero rows, named and unnamed rows where user names equal the names the exporter generates (c1, c2, ...), offsets of both signs and magnitudes, min / max / satisfy. to_lp_format() is read by an independent CPLEX-LP reader and compared with the model: sense (satisfy -> minimise), objective coefficients and constant, every row in order (user name, coefficients, relation - a strict < or > row must come out as <= or >= of the same direction -, right-hand side; numbers must read back as the identical f64), all row names pairwise distinct, effective bounds after the format's defaults equal to the domain, Binary / General marks equal to Boolean / IntegerRange. Non-trivial = a variable with non-default bounds, a row led by a negative coefficient, and an offset or an unnamed row. Distinct = distinct model text.".into()
     }
-    fn check(&self, case: &LinCase) -> Outcome {
-        let model = case.to_rooc();
+    fn check(&self, c17: &Case17) -> Outcome {
+        let case = &c17.lin;
+        let model = case.to_rooc_with(|i, r| match (r, c17.is_strict(i)) {
+            (R::Le, true) => rooc::Comparison::Less,
+            (R::Ge, true) => rooc::Comparison::Greater,
+            _ => r.to_rooc(),
+        });
         let text = model.to_lp_format();
-        let ctx = |s: String| format!("{s}\nLP text:\n{text}\nmodel: {}", case.pretty());
+        let strict_rows: Vec<usize> = (0..case.rows.len()).filter(|i| c17.is_strict(*i)).collect();
+        let ctx = |s: String| format!("{s}\nLP text:\n{text}\nmodel: {}\nrows with a strict relation: {strict_rows:?}", case.pretty());
         let lp = match parse(&text) {
             Ok(f) => f,
             Err(e) => return Outcome::fail("lp-text-not-readable", ctx(e)),
